@@ -316,6 +316,10 @@ Definition c05_variant_ok (n : nat) (ts : list triple) (genetic : bool) (gs : li
   && (if col_missing n gs || col_conflict ts gs then all_unphased n cs
       else if genetic then forced_phased ts gs cs else true).
 
+(* all members of a family get the same phase-set id at a variant (overall_components is shared) *)
+Definition with_ps (ps : Z) (ws : list (option (Z * Z))) : list call :=
+  map (fun w => match w with Some (a, b) => Some (a, b, ps) | None => None end) ws.
+
 (* the same Mendelian predicate on raw super-read alleles of one solver column (ties = 3 skipped) *)
 Definition sr_parent_ok (gs : list geno) (l : list (Z * Z)) (t : N) (child_allele : Z) (parent bitpos : nat) : bool :=
   if Z.eqb child_allele TIE then true
@@ -423,3 +427,21 @@ Definition cli_l2 (c : nat * list triple * bool * list cli_col) : bool :=
                     end
                end) cols
   end.
+
+(* ------------------------------------------------------------------ notions used in the theorem statements *)
+(* well-formed acyclic pedigree: n individuals, triples ts; rk is a topological numbering (parents are
+   numbered below their child, numbers below n); every individual is the child of at most one triple *)
+Record wf_ped (n : nat) (ts : list triple) (rk : nat -> nat) : Prop := {
+  wf_idx : forall tr, In tr ts -> tr_father tr < n /\ tr_mother tr < n /\ tr_child tr < n;
+  wf_child_once : NoDup (map tr_child ts);
+  wf_rank : forall tr, In tr ts -> rk (tr_father tr) < rk (tr_child tr) /\ rk (tr_mother tr) < rk (tr_child tr);
+  wf_rank_bound : forall i, i < n -> rk i < n
+}.
+
+(* first / second allele of as_vector as booleans *)
+Definition g0 (g : geno) : bool := Z.eqb (nth 0 g 0%Z) 1.
+Definition g1 (g : geno) : bool := Z.eqb (nth 1 g 0%Z) 1.
+
+(* the value the paternal allele of a heterozygous child is forced to when a parent is homozygous *)
+Definition forced_paternal (gs : list geno) (tr : triple) : bool :=
+  if g_hom (gof gs (tr_father tr)) then g0 (gof gs (tr_father tr)) else negb (g0 (gof gs (tr_mother tr))).
